@@ -33,6 +33,15 @@ pub fn check(tier: Tier) -> Check {
             tier.pick(15, 300),
         ));
     }
+    // identifier flavour: the counters start next to a boundary of their encodings (DESIGN 4)
+    for ids in [[65534u64, 1u64], [255, 127]] {
+        parts.push(Part::new(
+            "C17/resume",
+            json!({"depth": tier.pick(5, 6), "expiry": 1000, "secs_ago": 10, "ids": ids}),
+            0,
+            tier.pick(15, 300),
+        ));
+    }
     Check {
         also_rel: false,
         property: "C17",
